@@ -853,6 +853,10 @@ where
     /// Gets the root hash at the current epoch.
     #[cfg_attr(feature = "tracing_instrument", tracing::instrument(skip_all))]
     pub async fn get_epoch_hash(&self) -> Result<EpochHash, AkdError> {
+        // The guard will be dropped at the end of the operation. As for proof generation, the
+        // cache must not be flushed between reading the epoch and reading the root node.
+        let _guard = self.cache_lock.read().await;
+
         let current_azks = self.retrieve_azks().await?;
         let latest_epoch = current_azks.get_latest_epoch();
         let root_hash = current_azks.get_root_hash::<TC, _>(&self.storage).await?;
